@@ -3,6 +3,7 @@ rates are 0 at vacant stations; peak = max aggregate current; total energy = int
 from __future__ import annotations
 
 import copy
+import itertools
 import json
 import warnings
 
@@ -14,14 +15,15 @@ from core.common import close
 
 ID = "C02"
 LEAN_MODULES = ["AcnProofs.C02"]
-DRIVER = "drv_C01"          # the generic whole-simulation driver of the shared `Acn.Sim` model
+DRIVER = "drv_C02"          # the shared `Acn.Sim` model + the spec sums of the theorems evaluated on the model
 REQUIRED_THEOREMS = [
     "Acn.C02.ledger_ideal", "Acn.C02.ledger_stepwise", "Acn.C02.ledger_continuous", "Acn.C02.ledger_zero_pilot",
     "Acn.C02.ev_charge_step", "Acn.C02.ev_energy_eq_battery_gain", "Acn.C02.ledger_invariant",
     "Acn.C02.sim_energy_eq_battery_gain", "Acn.C02.session_energy_all", "Acn.C02.session_energy_eq_sum",
     "Acn.C02.rate_zero_when_vacant", "Acn.C02.peak_eq_max", "Acn.C02.total_energy_eq_integral",
+    "Acn.C02.session_energy_interval", "Acn.C02.session_energy_interval_complete", "Acn.C02.rates_zero_outside_interval", "Acn.C02.exec_sums_eq_spec", "Acn.C02.sim_rate_le_pilot",
 ]
-BUDGET = {"quick": 900, "thorough": 8000, "search": 6000}
+BUDGET = {"quick": 900, "thorough": 6000, "search": 6000}
 TRUSTED = ["numpy: zeros / column assignment / sum(axis=0) / dot as used by simulator.py and analysis.py",
            "numpy.random.normal draws are inputs of the model (patched in the harness process, same stream fed to the model)",
            "session ids identify EV objects; a network keeps its EVSEs in a dict (station ids distinct)",
@@ -36,7 +38,8 @@ RULE = ("whole simulations through core.simcase: 1-6 stations of mixed EVSE clas
         "(ideal, two-stage continuous/stepwise, noise 0/0.5/2 with the draws fed to both sides), capacity up to 100 kWh for "
         "requests <= 12 kWh, scripted multi-period schedules over random station subsets (vacant stations addressed, pilots "
         "above the battery's maximum power), real algorithms (oracle only), malformed stream (aborting runs: correspondence "
-        "only); plus an exact stream (V=1000, period=60, dyadic pilots and batteries) checked with ZERO slack; "
+        "only); thorough adds every layout of <= 3 sessions on <= 2 stations within horizon 5 with pilots from {0, 8, 40}; "
+        "plus an exact stream (V=1000, period=60, dyadic pilots and batteries) checked with ZERO slack; "
         "non-trivial = run completed, >= 2 sessions received energy and some station was reused or addressed while vacant; "
         "distinct by hash of the case")
 
@@ -160,8 +163,36 @@ def _hi_pilot(rng, kind):
     return rng.choice([hi, hi, hi / 2, round(rng.uniform(hi / 2, hi), 2)])
 
 
+def exhaustive():
+    """Every layout (valid and overlapping) of <= 3 sessions on <= 2 stations within horizon 5; pilots from
+    {0, 8, 40} (40 A is above every battery's maximum power), battery class / voltage / period rotate."""
+    slots = [(st, a, d) for st in ("S0", "S1") for a in range(0, 5) for d in range(a + 1, 6)]
+    batts = [_bi(40.0, 5.0, 7.0), _bi(10.0, 9.0, 3.3), _b2(20.0, 15.0, 6.6, 0.0, 0.8, "continuous"),
+             _b2(20.0, 2.0, 4.0, 1.0, 0.5, "stepwise"), _bi(100.0, 0.0, 50.0)]
+    pil = [0.0, 8.0, 40.0]
+    out = []
+    k = 0
+    for n in range(0, 4):
+        for combo in itertools.combinations(range(len(slots)), n):
+            ss = [_s(f"x{i}", slots[j][0], slots[j][1], slots[j][2], [0.3, 4.0, 50.0][(k + i) % 3], copy.deepcopy(batts[(k + 2 * i) % 5]))
+                  for i, j in enumerate(combo)]
+            if k % 2:
+                ss.reverse()
+            kind = {"t": "cont", "min": 0, "max": 80}
+            p0, p1 = pil[k % 3], pil[(k // 3) % 3]
+            script = [{"t": 2, "sched": [["S0", [p1, p0, 8.0]], ["S1", [40.0, 0.0, p0]]]}] if k % 4 == 0 else []
+            out.append({"stations": [_st(0, [208, 120, 240][k % 3], kind), _st(1, [208, 277.5][k % 2], kind)], "constraint": None,
+                        "sessions": ss, "recomputes": [], "period": [5, 1, 15][(k // 2) % 3], "max_recompute": [1, None, 2][k % 3],
+                        "noise": [0.5, -0.25, 1.5], "exhaustive": True,
+                        "sched": {"type": "scripted", "default": [["S0", [p0]], ["S1", [p1]]], "script": script}})
+            k += 1
+    return out
+
+
 def generate(rng, n, tier):
     out = []
+    if tier == "thorough":
+        out.extend(exhaustive())
     for i in range(n):
         r = i % 12
         if r in (0, 1, 2):
@@ -227,7 +258,33 @@ def model_request(case):
 
 def compare(case, obs, model):
     # rates matrix, per-EV delivered / rate / battery charge and power, peak, occupancy log, pilots, events, error class
-    return S.compare(case, obs, model)
+    diffs = S.compare(case, obs, model)
+    # the theorems' equalities, executed on the MODEL's final state (spec sums of LedgerExec.lean)
+    led = model.get("ledger")
+    if led is None:
+        diffs.append("model answer carries no ledger section")
+    elif model.get("err") is None:
+        exact = bool(case.get("exact"))
+        b2f = S.b2f
+        for e in led["evs"]:
+            if e.get("missing"):
+                diffs.append(f"model: EV {e['session']} not found in the final state")
+                continue
+            d, g, a, iv = b2f(e["delta"]), b2f(e["gain"]), b2f(e["sum_all"]), b2f(e["sum_interval"])
+            if not _eq(d, g, exact):
+                diffs.append(f"model ledger: {e['session']} delivered {d!r} != battery gain {g!r}")
+            if not _eq(d, a, exact):
+                diffs.append(f"model ledger: {e['session']} delivered {d!r} != sum over the occupancy log {a!r}")
+            if S.is_valid_layout(case) and not _eq(d, iv, exact):
+                diffs.append(f"model ledger: {e['session']} delivered {d!r} != sum over [arrival, departure) {iv!r}")
+        if not _eq(b2f(led["peak_spec"]), b2f(model["peak"]), exact):
+            diffs.append(f"model ledger: peak {b2f(model['peak'])!r} != max aggregate {b2f(led['peak_spec'])!r}")
+        ids = [s["session"] for s in case["sessions"]]
+        if len(set(ids)) == len(ids) and not _eq(b2f(led["sum_delivered"]), b2f(led["integral"]), exact):
+            diffs.append(f"model ledger: total delivered {b2f(led['sum_delivered'])!r} != integral of power {b2f(led['integral'])!r}")
+        if led["vacant_nonzero"] != 0:
+            diffs.append(f"model ledger: {led['vacant_nonzero']} non-zero rate cells at vacant stations / future periods")
+    return diffs[:12]
 
 
 # ------------------------------------------------------------------ oracle: C02 on the implementation alone
@@ -278,6 +335,15 @@ def oracle(case, obs):
             if who is None and t < width and rates[i][t] != 0:
                 fails.append({"kind": "rate_when_vacant", "detail": f"charging_rates[{sts[i]}][{t}] = {rates[i][t]!r}, snapshot shows the station vacant"})
                 break
+    # C03's clause at simulator level (theorem sim_rate_le_pilot): 0 <= recorded rate <= pilot signal
+    pil = obs["pilots"]
+    if all(x >= 0 for row in pil for x in row):
+        for i in range(len(sts)):
+            for t in range(min(width, len(pil[i]))):
+                r, p = rates[i][t], pil[i][t]
+                if r < -1e-9 or r > p + 1e-9 + 1e-9 * abs(p):
+                    fails.append({"kind": "rate_outside_0_pilot", "detail": f"charging_rates[{sts[i]}][{t}] = {r!r}, pilot_signals = {p!r}"})
+                    break
     # (iii) peak = max(0, max_t sum_st rates)
     agg = [sum(rates[i][t] for i in range(len(sts))) for t in range(width)]
     exp_peak = max([0.0] + agg)
@@ -341,6 +407,8 @@ def features(case, obs):
          "stream=" + ("exact" if case.get("exact") else "malformed" if case.get("malformed") else "structured"),
          "charged_sessions=" + ("0" if _charged(obs) == 0 else "1" if _charged(obs) == 1 else "2-4" if _charged(obs) <= 4 else "5+"),
          "back_to_back=" + ("0" if _b2b(case) == 0 else "1+")]
+    if case.get("exhaustive"):
+        f.append("exhaustive_small_scope")
     if obs.get("err") is None:
         if _vacant_addressed(case, obs):
             f.append("vacant_station_addressed")
